@@ -8,6 +8,7 @@ from ref import doc9871 as D
 from ref import frames, gillham, isa
 from ref import registers as R
 from vlib import gen
+from vlib import variants
 from vlib.core import Leg, call
 
 PROPERTY = "C12"
@@ -175,6 +176,8 @@ def chk_valid(c, note):
     if v != "valid":
         return None  # generator miss (outside the envelope after clipping, or all-zero): counted by class, not judged
     msg = mkmsg(c)
+    if c["ctx_head"] & 1:
+        variants.prelude(pms, msg)  # the address of the reply is normally recovered first
     r = call(isfn(reg), msg)
     if r[0] != "ok" or r[1] is not True:
         return "is%s(%s) -> %r for a status-consistent, in-envelope BDS %s,%s content (MB %014X, DF%d, AC %s)" % (
